@@ -198,52 +198,71 @@ theorem encTrun_decTrun {bs : Bytes} {x : Trun} (h : decTrun bs = some x) :
   simpa using decTrun'_spec (exact_spec h)
 
 /-! ### saiz -/
+theorem decSaizTable_encSaizTable (dflt count : Nat) (sizes : List Nat) (rest : Bytes)
+    (h6 : count < 4294967296)
+    (h7 : if dflt = 0 then count = sizes.length else sizes = [])
+    (h8 : ∀ s ∈ sizes, s < 256) :
+    decSaizTable dflt (encSaizTable dflt count sizes ++ rest) = some ((count, sizes), rest) := by
+  have hm := decMany_encMany encU8 decU8 sizes rest (fun a ha r => decU8_encU8 a r (h8 a ha))
+  unfold decSaizTable encSaizTable
+  by_cases hd : dflt = 0
+  · rw [if_pos hd] at h7 ⊢
+    subst h7
+    rw [List.append_assoc, decU32_encU32 _ _ h6]
+    simp only [hd, if_true, hm]
+  · rw [if_neg hd] at h7 ⊢
+    subst h7
+    rw [decU32_encU32 _ _ h6]
+    simp only [hd, if_false]
+
+theorem decSaizTable_spec {dflt : Nat} {bs : Bytes} {count : Nat} {sizes : List Nat} {rest : Bytes}
+    (h : decSaizTable dflt bs = some ((count, sizes), rest)) :
+    count < 4294967296 ∧ (if dflt = 0 then count = sizes.length else sizes = []) ∧
+    (∀ s ∈ sizes, s < 256) ∧ encSaizTable dflt count sizes ++ rest = bs := by
+  unfold decSaizTable at h
+  cases hc : decU32 bs with
+  | none => simp [hc] at h
+  | some p =>
+    obtain ⟨n, b1⟩ := p
+    simp only [hc] at h
+    by_cases hd : dflt = 0
+    · simp only [hd, if_true] at h
+      cases hm : decMany decU8 n b1 with
+      | none => simp [hm] at h
+      | some q =>
+        obtain ⟨ss, b2⟩ := q
+        simp only [hm, Option.some.injEq, Prod.mk.injEq] at h
+        obtain ⟨⟨rfl, rfl⟩, rfl⟩ := h
+        obtain ⟨h7a, h7b, h7c⟩ := decMany_spec encU8 decU8 (fun s => s < 256)
+          (fun bs a r h => ⟨decU8_range h, encU8_decU8 h⟩) hm
+        refine ⟨decU32_range hc, by simp [hd, h7a], h7b, ?_⟩
+        simp only [encSaizTable, hd, if_true, List.append_assoc, h7a]
+        rw [h7c, encU32_decU32 hc]
+    · simp only [hd, if_false, Option.some.injEq, Prod.mk.injEq] at h
+      obtain ⟨⟨rfl, rfl⟩, rfl⟩ := h
+      refine ⟨decU32_range hc, by simp [hd], by simp, ?_⟩
+      simp only [encSaizTable, hd, if_false]
+      exact encU32_decU32 hc
+
 theorem decSaiz'_encSaiz (x : Saiz) (rest : Bytes) (h : x.Wf) :
     decSaiz' (encSaiz x ++ rest) = some (x, rest) := by
-  obtain ⟨version, flags, ait, aitp, dflt, count, sizes⟩ := x
   obtain ⟨h1, h2, h3, h4, h5, h6, h7, h8⟩ := h
-  simp only at h1 h2 h3 h4 h5 h6 h7 h8
-  have hm := decMany_encMany encU8 decU8 sizes rest (fun a ha r => decU8_encU8 a r (h8 a ha))
-  by_cases hd : dflt = 0
-  · subst hd
-    simp only [if_true] at h7
-    subst h7
-    simp only [decSaiz', encSaiz, if_true, List.append_assoc, Option.bind_eq_bind,
-      decU8_encU8 _ _ h1, decU24_encU24 _ _ h2, decOpt_encOpt_u32 _ _ _ h3,
-      decOpt_encOpt_u32 _ _ _ h4, decU8_encU8 _ _ h5, decU32_encU32 _ _ h6, hm, Option.bind_some]
-  · simp only [hd, if_false] at h7
-    subst h7
-    simp only [decSaiz', encSaiz, hd, if_false, List.append_assoc, Option.bind_eq_bind,
-      decU8_encU8 _ _ h1, decU24_encU24 _ _ h2, decOpt_encOpt_u32 _ _ _ h3,
-      decOpt_encOpt_u32 _ _ _ h4, decU8_encU8 _ _ h5, decU32_encU32 _ _ h6, decMany,
-      Option.bind_some, List.nil_append]
+  simp [decSaiz', encSaiz, List.append_assoc, decU8_encU8 _ _ h1, decU24_encU24 _ _ h2,
+    decOpt_encOpt_u32 _ _ _ h3, decOpt_encOpt_u32 _ _ _ h4, decU8_encU8 _ _ h5,
+    decSaizTable_encSaizTable _ _ _ _ h6 h7 h8]
 
 theorem decSaiz'_spec {bs : Bytes} {x : Saiz} {rest : Bytes} (h : decSaiz' bs = some (x, rest)) :
     x.Wf ∧ encSaiz x ++ rest = bs := by
   simp only [decSaiz', Option.bind_eq_bind, Option.bind_eq_some_iff, Prod.exists] at h
-  obtain ⟨v, b1, h1, f, b2, h2, a, b3, h3, b, b4, h4, d, b5, h5, n, b6, h6, ss, b7, h7, h8⟩ := h
+  obtain ⟨v, b1, h1, f, b2, h2, a, b3, h3, b, b4, h4, d, b5, h5, n, ss, b6, h6, h8⟩ := h
   simp only [Option.some.injEq, Prod.mk.injEq] at h8
   obtain ⟨rfl, rfl⟩ := h8
   obtain ⟨h3a, h3b⟩ := decOpt_u32_spec h3
   obtain ⟨h4a, h4b⟩ := decOpt_u32_spec h4
-  obtain ⟨h7a, h7b, h7c⟩ := decMany_spec encU8 decU8 (fun s => s < 256)
-    (fun bs a r h => ⟨decU8_range h, encU8_decU8 h⟩) h7
-  by_cases hd : d = 0
-  · subst hd
-    simp only [if_true] at h7a
-    refine ⟨⟨decU8_range h1, decU24_range h2, h3a, h4a, decU8_range h5, decU32_range h6,
-      by simp [h7a], h7b⟩, ?_⟩
-    simp only [encSaiz, if_true, List.append_assoc, h7a]
-    rw [h7c, encU32_decU32 h6, encU8_decU8 h5, h4b, h3b, encU24_decU24 h2, encU8_decU8 h1]
-  · simp only [hd, if_false] at h7a
-    have hss : ss = [] := List.length_eq_zero_iff.mp h7a
-    subst hss
-    simp only [encMany, List.nil_append] at h7c
-    subst h7c
-    refine ⟨⟨decU8_range h1, decU24_range h2, h3a, h4a, decU8_range h5, decU32_range h6,
-      by simp [hd], h7b⟩, ?_⟩
-    simp only [encSaiz, hd, if_false, List.append_assoc, List.append_nil]
-    rw [encU32_decU32 h6, encU8_decU8 h5, h4b, h3b, encU24_decU24 h2, encU8_decU8 h1]
+  obtain ⟨h6a, h6b, h6c, h6d⟩ := decSaizTable_spec h6
+  refine ⟨⟨decU8_range h1, decU24_range h2, h3a, h4a, decU8_range h5, h6a, h6b, h6c⟩, ?_⟩
+  simp only [encSaiz, List.append_assoc]
+  rw [h6d, encU8_decU8 h5, h4b, h3b, encU24_decU24 h2, encU8_decU8 h1]
 
 theorem decSaiz_encSaiz (x : Saiz) (h : x.Wf) : decSaiz (encSaiz x) = some x :=
   exact_roundtrip (decSaiz'_encSaiz x [] h)
